@@ -52,9 +52,9 @@ def BOUNDS(tier):
 
 
 def polesets(tier):
-    p = [[], [0], [0, 2, 4], [2], [2, 0]]        # [2, 0]: the monopole is not the first requested multipole
+    p = [[], [0], [0, 2, 4], [2], [2, 0], [1, 3]]        # [2, 0]: the monopole is not the first requested multipole; [1, 3]: odd orders
     if tier != 'quick':
-        p += [[4, 0], [4, 2, 0], [1, 3], [0, 2, 4, 6]]
+        p += [[4, 0], [4, 2, 0], [3, 0, 1], [0, 2, 4, 6]]
     return p
 
 
